@@ -1,18 +1,23 @@
 import corpus
 
 PLAN_QUICK = [("atoms", ["v1", "lazy1", "eol0", "eol1", "eol2", "eol4", "lazyeol4", "lazyeol2"]), ('ctx', ['v1', 'lazy1']), ('core', ['v1', 'lazy1']), ('conv', ['v1', 'lazy1'])]
-PLAN_THOROUGH = [("atoms", ["v1", "lazy1", "eol0", "eol1", "eol2", "eol4", "lazyeol4", "lazyeol2"]), ('ctx', ['v1', 'lazy1', 'eol0', 'eol1', 'eol2', 'eol4']), ('core', ['v1', 'lazy1', 'eol0', 'eol1', 'eol2', 'eol4']), ('conv', ['v1', 'lazy1', 'eol1', 'eol4']), ('exc', ['v1', 'lazy1'])]
+PLAN_THOROUGH = [('atoms', ['v1', 'lazy1', 'eol0', 'eol1', 'eol2', 'eol4', 'lazyeol4', 'lazyeol2']), ('ctx', ['v1', 'lazy1', 'eol1', 'eol4']), ('core', ['v1', 'lazy1', 'eol0', 'eol2']), ('conv', ['v1', 'lazy1', 'eol1', 'eol4']), ('exc', ['v1', 'lazy1'])]
 
 
 def units(tier, seed):
-    return corpus.units(PLAN_QUICK if tier == "quick" else PLAN_THOROUGH, tier, seed)
+    import os
+    import vlib
+    from vlib import Unit
+    # inputs constructed with an initial position other than 0:1:1, eager against lazy, all end-of-line policies
+    src = os.path.join(vlib.VERIF, "cpp", "drivers", "c06_initial.cpp")
+    return [Unit("c06_initial", src=src, kind="asan", shards=4)] + corpus.units(PLAN_QUICK if tier == "quick" else PLAN_THOROUGH, tier, seed)
 
 
 SPEC = {
     "units": units,
     "finish": {
-        "rule": 'every observable position of every monitored run is one observation: in.position() at every control hook (start/success/failure/apply/raise), eager byte/line/column at every invocation entry and exit, action_input::position(), parse_error positions; each is compared with the ten-line position function of the consumed prefix (count of Eol::ch bytes), for eager and lazy inputs. Non-trivial case: reference needed more than 3 steps.',
-        "floors": {'hook:start': 100000, 'action:apply': 1000},
+        "rule": 'every observable position of every monitored run is one observation: in.position() at every control hook (start/success/failure/apply/raise), eager byte/line/column at every invocation entry and exit, action_input::position(), parse_error positions; each is compared with the ten-line position function of the consumed prefix (count of Eol::ch bytes), for eager and lazy inputs. A separate driver (cpp/drivers/c06_initial.cpp) constructs eager and lazy memory_inputs with six initial (byte, line, column) values through both constructors that accept one, tokenises all strings over {a, b, LF, CR, !} up to length 5 (6 in the thorough tier) plus seeded longer ones under all five end-of-line policies and compares action_input::position(), in.input().position(), in.byte(), the parse_error position and the final position with the position function started at the initial position, and eager with lazy observation by observation. Non-trivial case: reference needed more than 3 steps.',
+        "floors": {'hook:start': 100000, 'action:apply': 1000, 'initial:action-positions': 100000, 'initial:initial-column': 10000, 'initial:initial-byte-or-line': 10000, 'initial:parse_error-positions': 10000},
         "assumptions": ['UTF-16/32 and multi-byte binary rules are excluded as the property says'],
     },
 }
